@@ -601,11 +601,13 @@ class KeyPathSet(formatting.Formattable):
     root = self._trie
     updated = False
     for key in path.keys:
+      # NOTE: with `include_intermediate`, every prefix of the path becomes a
+      # member, whether or not its node was already there.
+      if include_intermediate and '$' not in root:
+        root['$'] = True
+        updated = True
       if key not in root:
         root[key] = {}
-        if include_intermediate:
-          root['$'] = True
-          updated = True
       root = root[key]
 
     assert isinstance(root, dict), root
